@@ -673,15 +673,18 @@ impl<T> TooDee<T> {
     {
         assert!(index <= self.num_rows);
         let mut iter = data.into_iter();
-        if self.num_rows == 0 {
-            self.num_cols = iter.len();
+        // Nothing is modified until `iter.len()` and `reserve()` have returned: either may panic.
+        let num_cols = if self.num_rows == 0 {
+            iter.len()
         } else {
             assert_eq!(self.num_cols, iter.len());
-        }
+            self.num_cols
+        };
         
-        self.reserve(self.num_cols);
+        self.reserve(num_cols);
 
-        let start = index * self.num_cols;
+        let num_rows = self.num_rows;
+        let start = index * num_cols;
         let len = self.data.len();
 
         unsafe {
@@ -692,14 +695,20 @@ impl<T> TooDee<T> {
             // - append the new row to the array and use `slice.rotate...()` to shuffle everything into place.
             // - store the new row data in a temporary location before shifting the memory and inserting the row.
             self.data.set_len(start);
+            // While caller code runs, the dimensions describe what the vector currently owns
+            // (the rows above `index`), so that a panic leaves a valid - if shorter - array.
+            self.num_rows = index;
+            if index == 0 {
+                self.num_cols = 0;
+            }
             
             let mut p = self.data.as_mut_ptr().add(start);
             // shift everything to make space for the new row
-            ptr::copy(p, p.add(self.num_cols), len - start);
+            ptr::copy(p, p.add(num_cols), len - start);
             
-            // Iterates exactly `self.num_cols` times. Counting (rather than comparing
+            // Iterates exactly `num_cols` times. Counting (rather than comparing
             // pointers) also works for zero-sized types, where `p` never moves.
-            for _ in 0..self.num_cols {
+            for _ in 0..num_cols {
                 if let Some(e) = iter.next() {
                     ptr::write(p, e);
                     p = p.add(1);
@@ -711,12 +720,13 @@ impl<T> TooDee<T> {
             
             debug_assert!(iter.next().is_none(), "iterator not exhausted");
 
-            self.data.set_len(len + self.num_cols);
+            self.data.set_len(len + num_cols);
         }
 
-        // update the number of rows
-        if self.num_cols > 0 {
-            self.num_rows += 1;
+        // all elements are in place: update the dimensions
+        if num_cols > 0 {
+            self.num_cols = num_cols;
+            self.num_rows = num_rows + 1;
         }
 
     }
